@@ -93,6 +93,10 @@ def run(ctx, rep):
                 rep.fn(name)
     rep.floor("R10.3", 4)
     marker_discipline(ctx, rep)
+    # R10.5 both conversions are total: panic-site inventory
+    import panics
+    panics.check_paths(ctx, rep, "R10.5", ["insim_core::string::codepages::to_lossy_bytes", "insim_core::string::codepages::to_lossy_string"], label="codepage conversion")
+    rep.floor("R10.5", 8)
 
 
 def marker_discipline(ctx, rep):
